@@ -327,7 +327,13 @@ class Ctx:
         cname = self.rec_cname(r)
         if any(re.search(p, r.qname) for p in self.cfg.get('opaque', [])):
             self.opaque.add(r.id)
-            self.rec_defs[r.id] = 'struct %s { char _opaque; };\n' % cname
+            keep = self.cfg.get('opaque_keep', {}).get(cname, [])
+            flds = ''
+            for f in r.fields:
+                if f.get('name') in keep:
+                    flds += ' ' + self.ctype_decl(f['type'], f['name']) + ';'
+            # an opaque record keeps only the listed fields; the rest of its state is one havocable blob
+            self.rec_defs[r.id] = 'struct %s {%s char _opaque; };\n' % (cname, flds)
             self.rec_order.append(r)
             return
         lines = []
